@@ -55,10 +55,12 @@ RleWellFormed(a) == \A i \in 1..Len(a) : a[i][1] \in 0..255 /\ a[i][2] >= 1
 \* first four bytes, zero padded: the "prefix hint" of a slot (leaf.rs extract_prefix)
 Prefix4(s) == [i \in 1..4 |-> IF i <= Len(s) THEN s[i] ELSE 0]
 
-\* ids of a finite family of RLE keys sorted ascending (selection sort; the family is small)
-RECURSIVE SortIds(_, _)
-SortIds(ids, kb) ==
-  IF ids = {} THEN <<>>
-  ELSE LET mn == CHOOSE i \in ids : \A j \in ids \ {i} : RleLess(kb[i], kb[j])
-       IN <<mn>> \o SortIds(ids \ {mn}, kb)
+RECURSIVE Flatten(_)            \* concatenation of a sequence of sequences
+Flatten(ss) == IF ss = <<>> THEN <<>> ELSE ss[1] \o Flatten(Tail(ss))
+
+\* the same for an RLE string, without expanding it
+RlePrefix4(a) ==
+  LET m4(x) == IF x < 4 THEN x ELSE 4
+      head == [i \in 1..m4(Len(a)) |-> <<a[i][1], m4(a[i][2])>>]
+  IN Prefix4(RleExpand(head))
 =============================================================================
